@@ -358,7 +358,8 @@ func (es *evaluationScope) variationOrRolloutResult(
 	// this case (or changing the scaling, which would potentially change the results for *all* users), we
 	// will simply put the user in the last bucket.
 	lastBucket := r.Rollout.Variations[len(r.Rollout.Variations)-1]
-	return lastBucket.Variation, isExperiment && !lastBucket.Untracked, nil
+	return lastBucket.Variation, isExperiment && !lastBucket.Untracked &&
+		problem != bucketingFailureContextLacksDesiredKind, nil
 }
 
 func (es *evaluationScope) logEvaluationError(err error) {
